@@ -785,4 +785,30 @@ def selftest():
 
 
 def replay(pid, path):
+    """Re-executes the witness of a violation (the file named in a VIOLATION line).  Exit 1 + VIOLATION line if it still fails."""
+    import json
+    v = json.load(open(path))
+    case, cmd, mode = v.get("case") or {}, v.get("cmd"), v.get("mode")
+    ctx = core.Ctx(pid + "-replay", v.get("tier", "quick"), int(v.get("seed", 0) or 0), level=LEVELS.get(pid, "model_checking"))
+    ctx.findings = []
+    if cmd == "replay" and isinstance(case, dict) and case.get("k") not in ("spec", "trace", "pydrive", "driver_panic", None):
+        infile = os.path.join(ctx.work, "case.ndjson")
+        open(infile, "w").write(json.dumps(case) + "\n")
+        ctx.vh("replay", mode=mode, infile=infile)
+        if not ctx.violations and case.get("W", 0) >= 3:
+            ctx.vh("replay", mode=mode, infile=infile, extra=["--narrow"])
+    elif cmd == "pydrive":
+        py_traces(ctx, [case.get("coder", mode)])
+        ctx.required = {}
+    else:
+        # recorded traces (a recording of the failing run stays rejected for ever: the run has to be repeated), driver scenarios and
+        # specification-level violations: the whole check with the recorded seed and tier
+        CHECKS[pid](ctx)
+    import shutil
+    if ctx.violations:
+        print("VIOLATION property=%s replay=%s" % (pid, path))
+        print("  " + ctx.violations[0]["detail"][:600])
+        return 1
+    shutil.rmtree(ctx.work, ignore_errors=True)
+    print("OK property=%s replay of %s no longer fails" % (pid, os.path.basename(path)))
     return 0
